@@ -177,6 +177,51 @@ for ty, file in (("G1Affine", "curves/src/bls12_381/g1.rs"), ("G2Affine", "curve
         }
 
 
+# ---------------------------------------------------------------- routing of the public decoding API
+# GroupEncoding::from_bytes / UncompressedEncoding::from_uncompressed / the projective wrappers are
+# one-line glue.  Contract: a CHECKED entry point returns Some exactly when the checked affine decoder
+# does (and an unchecked one exactly when the unchecked decoder does) -- so no public checked decoder
+# bypasses the on-curve / subgroup checks proved above.
+def _routing_env(self_ty, aff_ty):
+    def mk():
+        env = make_env()
+        p = Struct(aff_ty, {"x": sp.Symbol("p_x"), "y": sp.Symbol("p_y"), "_name": "p"})
+        for recv in (self_ty, aff_ty, "Self"):
+            for n in ("from_compressed", "from_uncompressed"):
+                env.calls[(recv, n)] = (lambda n: lambda en, a: Opt(p, ("atom", "checked:" + n)))(n)
+                env.calls[(recv, n + "_unchecked")] = (lambda n: lambda en, a: Opt(p, ("atom", "unchecked:" + n)))(n)
+        env.consts[("Into", "into")] = "Into::into"
+        env.methods[("Opt", "map")] = lambda en, r, a: Opt(r.value, r.cond)
+        return env
+    return mk
+
+
+def _bytes_input():
+    return {"bytes": Struct("Repr", {"0": sp.Symbol("bytes0")})}
+
+
+for g, file in (("G1", "curves/src/bls12_381/g1.rs"), ("G2", "curves/src/bls12_381/g2.rs")):
+    aff, prj = g + "Affine", g + "Projective"
+    routes = [
+        ("impl GroupEncoding for " + prj, "from_bytes", prj, "checked:from_compressed"),
+        ("impl GroupEncoding for " + prj, "from_bytes_unchecked", prj, "unchecked:from_compressed"),
+        ("impl GroupEncoding for " + aff, "from_bytes", aff, "checked:from_compressed"),
+        ("impl GroupEncoding for " + aff, "from_bytes_unchecked", aff, "unchecked:from_compressed"),
+        ("impl UncompressedEncoding for " + aff, "from_uncompressed", aff, "checked:from_uncompressed"),
+        ("impl UncompressedEncoding for " + aff, "from_uncompressed_unchecked", aff, "unchecked:from_uncompressed"),
+        ("impl " + prj, "from_compressed", prj, "checked:from_compressed"),
+        ("impl " + prj, "from_compressed_unchecked", prj, "unchecked:from_compressed"),
+    ]
+    for impl, fn_, self_ty, atom in routes:
+        PREDICATES["%s::%s (%s)" % (self_ty, fn_, impl.split()[1])] = {
+            "file": file, "item": [impl, "fn " + fn_], "inputs": _bytes_input,
+            "spec": (lambda atom: lambda loc: ("atom", atom))(atom),
+            "env": _routing_env(self_ty, aff), "props": ["C11", "C16"],
+            "value": lambda v, loc: isinstance(v, Struct) and v.fields.get("_name") == "p",
+            "clause": "returns Some exactly when %s does, on the same bytes (checked entry points never route to an unchecked decoder)" % atom.replace(":", " "),
+        }
+
+
 def constants_check(read):
     text = read("curves/src/bls12_381/fp.rs")
     P = 0x1a0111ea397fe69a4b1ba7b6434bacd764774b84f38512bf6730d2a0f6b0f6241eabfffeb153ffffb9feffffffffaaab
